@@ -22,7 +22,12 @@ CONSTANTS NT,          \* maximal number of tokens
           SMALLSHAPES  \* TRUE: a 9-shape subset for arity 3 (quick)
 Small == {"var", "atom", "int", "maxint", "float", "compound", "list", "partial", "callable_cut"}
 ShapesFor(n) == IF n = 3 /\ SMALLSHAPES THEN Small ELSE Shapes
+Small5 == {"var", "atom", "int", "maxint", "list", "compound"}
+\* arities 0..3: every combination of shapes; arity 4: every combination of the 9 Small shapes; arity 5: every combination of
+\* 6 (quick) or 9 (thorough) shapes; arities 6..8 (only call/N): one shape everywhere except one position
 Tuples(n) == IF n <= 3 THEN [1..n -> ShapesFor(n)]
+             ELSE IF n = 4 THEN [1..4 -> Small]
+             ELSE IF n = 5 THEN [1..5 -> IF SMALLSHAPES THEN Small5 ELSE Small]
              ELSE { [i \in 1..n |-> IF i = k THEN s2 ELSE s1] : s1 \in Small, s2 \in Small, k \in 1..n }
 \* "eval": every evaluable functor of ISO 9 applied to every tuple of number shapes through is/2
 Eval1 == {"-", "+", "abs", "sign", "float", "integer", "float_integer_part", "float_fractional_part", "floor", "truncate", "round", "ceiling", "sin", "cos", "atan", "exp", "log", "sqrt", "\\", "max_integer", "foo"}
